@@ -29,6 +29,7 @@ def run(ctx):
     lib_guards.presence(ctx, seen, funcs=funcs, P=P)
     lib_module.module_guards(ctx, P, only=ms)
     lib_module.parsed_used(ctx, P, only=ms)
+    lib_py.immutable_treeseq(ctx, py)       # breakpoints and the other cached arrays are handed out read-only
     lib_py.null_index(ctx, py)
     lib_py.unused_params(ctx, py, mods=("trees",), only=ps)
     lib_kind.py_lints(ctx, py, mods=("trees",), only=ps)
